@@ -4,6 +4,8 @@ NOTES = ("Static analysis only: every check re-extracts a typed AST + CFG of the
          "(anchor vanished, construct not understood). Clauses that are not decided are listed per property in level_note.")
 
 ENGINES = [
+    {"name": "engine B (synchronisation skeleton)", "path": "engine/sync.py", "serves_properties": ["C10", "C11"],
+     "kind_free_text": "lock-state dataflow over the CFG, wait/notify extraction, predicate polarity tables"},
     {"name": "tlxir", "path": "tools/tlxir.cc", "serves_properties": ["C15"],
      "kind_free_text": "clang LibTooling extractor: typed AST with resolved callees, template instantiations, clang CFG -> JSON"},
     {"name": "engine A (order abstraction / decision tables)", "path": "engine/dtable.py", "serves_properties": ["C15", "C09", "C05"],
@@ -90,6 +92,24 @@ CLAIMS["C17"] = dict(
           "SPLAY-OWNER (clear() nulls root_), SPLAY-LINK (no child link overwritten unless saved or known empty), SPLAY-ALLOC-PAIR, SPLAY-ORIENT. "
           "These rules found three genuine defects (clear(), exists() on an empty tree, multiset erase losing nodes), all fixed."),
     note=(TRUST + "Not decided: LRU order and BST order/rotations over whole histories; SplayTree::check() rejecting equal keys of a multiset is outside the property's operation list."),
+)
+
+CLAIMS["C10"] = dict(
+    level="other",
+    technique="static analysis: lock-state dataflow over the clang CFG (RAII guards, explicit lock/unlock, condition-variable waits) + lockset, must-pass-through (write => notify), predicate truth tables for write polarity, dominance/post-dominance ordering rules",
+    text=("LOCKSET (jobs_ only under mutex_), TAKE-ATOMIC, RUN-UNLOCKED, JOB-LIFETIME, BUSY-PAIR, WRITE-NOTIFY (every enabling write to a wait-predicate variable is "
+          "followed by a notify on all paths with the mutex held at the write or the notify), NOTIFY-KIND (found: cv_finished_ has two predicates but was signalled with "
+          "notify_one - fixed), NO-BARE-WAIT, JOIN-UNLOCKED over all ThreadPool members. Necessary conditions of exactly-once execution, quiescence of loop_until_empty and "
+          "absence of lost wake-ups under every schedule."),
+    note=(TRUST + "Frozen tables: jobs_ guarded by mutex_; the destructor need not notify cv_finished_. Not decided: deadlock freedom / termination over all schedules as such, done() equality, exceptions not derived from std::exception."),
+)
+CLAIMS["C11"] = dict(
+    level="other",
+    technique="static analysis: lock-state dataflow + dominance rules on Semaphore (guarded take, notify kind from the waiters' parameter-dependent predicate) and on both barriers (snapshot / arrival RMW / reset+action / release ordering, memory orders)",
+    text=("Semaphore: SEM-LOCKSET, SEM-GUARDED-TAKE (value_ -= delta only after value_ >= delta+slack in the same hold), NO-BARE-WAIT, WRITE-NOTIFY, NOTIFY-KIND (found: signal() "
+          "used notify_one although waiters have different demands - fixed). ThreadBarrierMutex BARRIER-ORDER and ThreadBarrierSpin SPIN-ORDER for wait and wait_yield: "
+          "generation snapshot before arrival, last arriver decided by the RMW result, counter reset and action dominate the release, release/acquire orders."),
+    note=(TRUST + "Not decided: liveness and fairness over all schedules; Semaphore::value() reads without the lock (not among the property's operations)."),
 )
 
 NOT_APPLICABLE = {}
